@@ -261,8 +261,8 @@ class Roles:
                     continue
                 for site in self.ctx.cg.sites[f.key]:
                     for t in site.targets:
-                        if t.mod.rel != CACHE:
-                            continue
+                        if t.mod.rel not in (CACHE, GRAMMAR):
+                            continue            # (a helper of grammar.py may stand between Grammar.parse and cache.py)
                         params = t.params()
                         if t.cls is not None:
                             params = params[1:]
